@@ -692,6 +692,9 @@ func c05HarnessOf(get func() *c05Driver) mc.Harness {
 			d = &dv
 		}
 		golden := c05GoldenFor(d)
+		// race build: also with every Get answered by New, so that no pooled object handed from one thread to the
+		// other orders their accesses and the detector judges everything else they share
+		allNew := os.Getenv("GORACE") != "" && x.All("every-Get-answered-by-New", 2) == 1
 		pristine()
 		defaultLogger()
 		if d.prelude != nil {
@@ -716,6 +719,9 @@ func c05HarnessOf(get func() *c05Driver) mc.Harness {
 				}
 				return x.All("sched", n)
 			default:
+				if allNew {
+					return n - 1
+				}
 				return x.Choose("pool-answer", n)
 			}
 		}
@@ -805,7 +811,7 @@ func init() {
 	register(&mc.Check{Property: "C05", Setup: defaultLogger,
 		Spaces: func(tier string) []mc.Space {
 			raceBin := os.Getenv("VCHECK_RACE_BIN")
-			raceEnv := []string{"GORACE=halt_on_error=1 exitcode=66"}
+			raceEnv := []string{"GORACE=halt_on_error=1 exitcode=66 history_size=7"}
 			pb, rb := 2, 1
 			if tier == "thorough" {
 				pb, rb = 3, 2
